@@ -100,6 +100,8 @@ def _(ir: ExpressionIR) -> KernelTensorSizes:
     )
     coords = ir.expression.number_coordinate_dofs * 3
     local_index = 2  # TODO: this is just an upper bound, harmful?
-    permutation = 2 if ir.expression.needs_facet_permutations else 0
+    # Expressions evaluated at facet points use permuted tables, selected by quadrature_permutation[0]
+    permuted = ir.expression.needs_facet_permutations or ir.expression.entity_type == "facet"
+    permutation = 2 if permuted else 0
 
     return KernelTensorSizes(A, w, c, coords, local_index, permutation)
